@@ -131,4 +131,32 @@ theorem roundtrip_partial (enc : Enc) (lib : Lib) (max : Nat) (hrt : Proof.C19.R
     decompress lib max (compress enc prefs opts flags src).2 bytes = .ok src :=
   Proof.C19.roundtrip enc lib max hrt prefs opts flags hopts src hlen bytes h
 
+/-! ### The reference decoders used as independent implementations -/
+
+/-- Reference snappy decoder: never reads or copies out of range, for every byte string; and what it returns
+has exactly the length the block's header declares, which is at most the caller's `limit`. -/
+theorem ref_snappy_safe (limit : Nat) (src : Arr) :
+    snappyDecode limit src ≠ .panic ∧
+    ∀ out, snappyDecode limit src = .ok out → (∃ n, snappyLen src = .ok (out.size, n)) ∧ out.size ≤ limit :=
+  Proof.C19.snappyDecode_safe limit src
+
+/-- literal "ab", then a copy of 4 bytes from offset 2: "ababab" -/
+example : (match snappyDecode 100 #[6, 4, 97, 98, 1, 2] with | .ok o => o.toList | _ => []) = [97, 98, 97, 98, 97, 98] := by
+  decide
+
+/-- Reference LZ4 frame decoder: never reads or copies out of range and never returns more than `limit` bytes,
+for every byte string and every checksum function. -/
+theorem ref_lz4_safe (xxh : Arr → Nat) (limit : Nat) (src : Arr) :
+    lz4Frame xxh limit src ≠ .panic ∧ ∀ out, lz4Frame xxh limit src = .ok out → out.size ≤ limit := by
+  have h := Proof.C19.lz4Frame_safe xxh limit src
+  cases hr : lz4Frame xxh limit src with
+  | ok o => rw [hr] at h; exact ⟨by simp, fun out ho => by cases ho; exact h⟩
+  | err => exact ⟨by simp, fun out ho => by cases ho⟩
+  | panic => rw [hr] at h; exact absurd h (by simp [Proof.C19.okSize])
+
+/-- a frame with one compressed block holding the literals "abc" (no checksums: checksum function constantly 0) -/
+example : (match lz4Frame (fun _ => 0) 100 #[4, 34, 77, 24, 64, 64, 0, 4, 0, 0, 0, 48, 97, 98, 99, 0, 0, 0, 0] with
+    | .ok o => o.toList | _ => []) = [97, 98, 99] := by
+  decide
+
 end Props.C19
